@@ -4,7 +4,8 @@ DUTs: wishbone.DownConverter/UpConverter/Converter, Cache, Remapper, Wishbone2CS
 (classic + registered-feedback bursts, read_only, init, narrow memory), and chains of two. One master
 issues a literal history; the backing store is a memory agent with literal latencies (or the real SRAM).
 Oracle: reference byte memory over the (translated) backing-store byte addresses."""
-from dsim.kernel import Bench, wrap_top
+from dsim import prng
+from dsim.kernel import Bench, wrap_top, Agent
 from dsim.wb_agents import WBMaster, WBSlave, PortRecorder
 
 PROPERTY = "C07"
@@ -151,8 +152,11 @@ def generate(family, rng, tier):
             ops = gen_ops(rng, n, 4, lambda r: r.randrange(16))
         else:
             ops = gen_ops(rng, n, 4, lambda r: 0x20 + r.randrange(8))
-    return {"family": family, "params": p, "ops": [ops], "lat": lat,
-            "errs": []}
+    scn = {"family": family, "params": p, "ops": [ops], "lat": lat, "errs": []}
+    if rng.random() < 0.3:
+        # the backing store is a zero-wait-state memory (combinational ack in the cycle of the request) with literal wait cycles
+        scn["comb_slave"] = prng.pattern(rng, 400, rng.choice([1.0, 1.0, 0.8, 0.5]))
+    return scn
 
 
 # ------------------------------------------------------------------------------------------------
@@ -278,6 +282,48 @@ def build(p):
     raise KeyError(fam)
 
 
+class CombSlave(Agent):
+    """A zero-wait-state classic Wishbone memory built from real logic (a Memory with an asynchronous read port; ack = cyc & stb & allow,
+    combinationally, in the very cycle the request is presented), which a registered agent cannot be. `allow` is a register this
+    agent drives from a literal pattern, so that zero-wait and delayed answers mix. The agent mirrors the memory from the transfers
+    it sees (read_word / log, as WBSlave)."""
+
+    def __init__(self, top, bus, bits, init_word, pattern):
+        from migen import Module, Memory, Signal, Replicate
+        self.bus, self.bits, self.init_word, self.pattern = bus, bits, init_word, pattern
+        nsel = len(bus.sel)
+        m = Module()
+        mem = Memory(len(bus.dat_w), 1 << bits, init=[init_word(a) for a in range(1 << bits)], name="combmem")
+        rp = mem.get_port(async_read=True)
+        wp = mem.get_port(write_capable=True, we_granularity=8)
+        m.specials += mem, rp, wp
+        self.allow = Signal(reset=1)
+        m.comb += [rp.adr.eq(bus.adr[:bits]), bus.dat_r.eq(rp.dat_r), bus.ack.eq(bus.cyc & bus.stb & self.allow),
+                   wp.adr.eq(bus.adr[:bits]), wp.dat_w.eq(bus.dat_w), wp.we.eq(Replicate(bus.ack & bus.we, nsel) & bus.sel)]
+        top.submodules += m
+        self.reads = (bus.cyc, bus.stb, bus.we, bus.adr, bus.dat_w, bus.sel, bus.ack)
+        self.mem, self.log = {}, []
+        self.name = "s"
+
+    def read_word(self, adr):
+        return self.mem.get(adr, self.init_word(adr))
+
+    def step(self, v, t, w):
+        b = self.bus
+        if v[b.cyc] and v[b.stb] and v[b.ack]:
+            adr = v[b.adr]
+            if v[b.we]:
+                new = self.read_word(adr)
+                for i in range(len(b.sel)):
+                    if (v[b.sel] >> i) & 1:
+                        new = (new & ~(0xff << (8 * i))) | (v[b.dat_w] & (0xff << (8 * i)))
+                self.mem[adr] = new
+            self.log.append({"t": t, "we": v[b.we], "adr": adr, "dat_w": v[b.dat_w], "sel": v[b.sel], "err": False})
+            self.bench.event(self.name, "xfer", t, v[b.we], adr, v[b.dat_w] if v[b.we] else None, v[b.sel])
+        pat = self.pattern
+        w(self.allow, 1 if t + 1 >= len(pat) else int(pat[t + 1] == "1"))
+
+
 def run(scn):
     p = scn["params"]
     fam = p["family"]
@@ -311,7 +357,15 @@ def run(scn):
                     continue
                 w_ |= hbyte(b) << (8 * i)
             return w_
-        sa = bench.add(WBSlave(sb, scn["lat"], name="s", init=init_word, errs=()))
+        comb_bits = None
+        if scn.get("comb_slave"):
+            top_word = max(xl(op["adr"] * nsel + i) // bs for op in allops for i in range(nsel))
+            if top_word < 4096:
+                comb_bits = max(1, top_word.bit_length())
+        if comb_bits is not None:
+            sa = bench.add(CombSlave(top, sb, comb_bits, init_word, scn["comb_slave"]))
+        else:
+            sa = bench.add(WBSlave(sb, scn["lat"], name="s", init=init_word, errs=()))
         initb = lambda b: 0 if (zero_below is not None and b in zero_below) else hbyte(b)  # noqa
         # slave-side protocol monitor: request stable until acknowledged, stb only with cyc
         prev = [None]
